@@ -849,6 +849,42 @@ func ruleIdx5(c *Ctx, r *Reporter) {
 		r.bad("File.BuildCatalog:index rebuild", c.pos(bc.Pos()), "loaded indexes are not rebuilt and installed")
 		return
 	}
+	// every stored index is rebuilt: whether Build runs does not depend on a property of the index (only a built
+	// index knows the documents; skipping it for non-unique indexes leaves them empty after a reload)
+	{
+		depends := ""
+		for _, cond := range controlConds(b2.Block(), 1) {
+			seen := map[ssa.Value]bool{}
+			var walk func(v ssa.Value, d int)
+			walk = func(v ssa.Value, d int) {
+				if v == nil || seen[v] || d > 6 {
+					return
+				}
+				seen[v] = true
+				switch x := v.(type) {
+				case *ssa.Field:
+					if n := derefNamed(x.X.Type()); n != nil && n.Obj().Name() == "FileIndex" {
+						depends = structFieldOf(x).Name()
+					}
+				case *ssa.UnOp:
+					if fa, ok := x.X.(*ssa.FieldAddr); ok {
+						if n := derefNamed(fa.X.Type()); n != nil && (n.Obj().Name() == "FileIndex" || n.Obj().Name() == "IndexConfig") {
+							depends = structFieldOf(fa).Name()
+						}
+					}
+				}
+				if in, ok := v.(ssa.Instruction); ok {
+					for _, op := range in.Operands(nil) {
+						if op != nil && *op != nil {
+							walk(*op, d+1)
+						}
+					}
+				}
+			}
+			walk(cond, 0)
+		}
+		r.check(depends == "", "File.BuildCatalog:every index is rebuilt", c.pos(b2.Pos()), "Index.Build runs for every stored index", "whether a loaded index is built depends on its "+depends+" setting: the other indexes come back with their definition but without any documents, and the first update or delete of an old document fails to remove it from the index")
+	}
 	okv2 := tupleResult(b2, 0)
 	r.check(okv2 != nil && boolFalseReturnsError(okv2), "File.BuildCatalog:duplicate rejected", c.pos(b2.Pos()), "a stored index that cannot be rebuilt uniquely fails the load", "a duplicate found while rebuilding a stored unique index is ignored")
 	// map key is the range key of ns.Indexes
